@@ -19,6 +19,8 @@ REWRITES = [
     ("attrs-sorted", dict(attr_order="sorted")),
     ("single-quotes", dict(quote="'")),
     ("explicit-close", dict(selfclose=False)),
+    ("attrs-on-lines", dict(indent=2, attr_lines=True)),
+    ("attrs-on-lines-crlf", dict(indent=2, attr_lines=True, crlf=True)),
     ("all", dict(indent=1, crlf=True, attr_order="rev", quote="'", selfclose=False)),
 ]
 
